@@ -230,7 +230,7 @@ def check_case(case):
     elif fam == "sqrt-lasso":
         from skglm.experimental import SqrtLasso
         amax = np.abs(X.T @ y).max() / np.linalg.norm(y)
-        alpha = float(amax * max(case["frac"], .05))
+        alpha = float(amax * max(case["frac"], .05)) or 1.   # X^T y = 0: any alpha > 0 gives w = 0
 
         def Pobj(w):
             return float(np.linalg.norm(y - X @ w) + alpha * np.abs(w).sum())
